@@ -8,7 +8,7 @@
    neighbours - validated by the correspondence run of tools/c09.py, which computes the abstraction of every
    item by reading it in a document of its own). *)
 From Coq Require Import List Bool ZArith.
-From Basyx Require Import model.ReaderFlow.
+From Basyx Require Import model.ReaderFlow model.Corr.
 Import ListNotations.
 Local Open Scope Z_scope.
 
@@ -17,7 +17,10 @@ Inductive okind := KShell | KSubmodel | KCD.                  (* class of an ide
 Inductive lkind := LKnown (k : okind) | LUnknown.             (* top-level list *)
 
 Inductive item :=
-| IObj (c : okind) (id : Z) (payload : Z)   (* decodes to an identifiable of class c; payload = token of its content *)
+| IObj (c : okind) (id : Z) (payload : Z) (se : option exn)
+                                            (* decodes (failsafe) to an identifiable of class c, payload = token of its
+                                               content; se = Some e: a nested part is defective - failsafe drops that part,
+                                               strict raises e; se = None: strict decodes to the same object *)
 | IBroken (e : exn)                         (* an AAS object whose construction fails; e = class raised in strict mode *)
 | IOther.                                   (* JSON: any value that is not an identifiable (number, dict without / with a
                                                foreign modelType, a Property ...); XML: a child with another tag *)
@@ -53,8 +56,12 @@ Definition accept (m : bool) (fl : flags) (id p : Z) (s : state) : res state :=
 
 Definition step (f : fmt) (m : bool) (fl : flags) (l : okind) (it : item) (s : state) : res state :=
   match it with
-  | IObj c id p =>
-      if okind_eqb l c then accept m fl id p s
+  | IObj c id p se =>
+      if okind_eqb l c then
+        match se, m with
+        | Some e, false => RErr e                        (* XML: _failsafe_construct re-raises (JSON: raised at load time) *)
+        | _, _ => accept m fl id p s
+        end
       else match f with
            | JSON => if m then accept m fl id p s       (* "was in wrong list; nevertheless, we'll use it" *)
                      else RErr TypeError
@@ -113,11 +120,12 @@ Definition run_json (m : bool) (fl : flags) (d : doc) (s : state) : res state :=
    (also below unknown names): the first broken object raises *)
 Definition all_items (d : doc) : list item :=
   flat_map (fun lo => match snd lo with Some its => its | None => [] end) d.
+Definition strict_exn (it : item) : option exn :=
+  match it with IBroken e => Some e | IObj _ _ _ (Some e) => Some e | _ => None end.
 Fixpoint first_broken (its : list item) : option exn :=
   match its with
   | [] => None
-  | IBroken e :: _ => Some e
-  | _ :: r => first_broken r
+  | it :: r => match strict_exn it with Some e => Some e | None => first_broken r end
   end.
 
 Definition walk (f : fmt) (m : bool) (fl : flags) (d : doc) (st : store) : res state :=
@@ -138,7 +146,7 @@ Definition conflict_free (fl : flags) (st : store) : bool :=
   fl_replace fl || fl_ignore fl || match st with [] => true | _ => false end.
 
 (* ---- relations used by the isolation theorem *)
-Definition item_id (it : item) : option Z := match it with IObj _ id _ => Some id | _ => None end.
+Definition item_id (it : item) : option Z := match it with IObj _ id _ _ => Some id | _ => None end.
 (* b is a (possibly) damaged version of a, neither involving identifier k *)
 Definition item_rel (k : Z) (a b : item) : Prop := a = b \/ (item_id a <> Some k /\ item_id b <> Some k).
 Definition list_rel (k : Z) (a b : lkind * option (list item)) : Prop :=
@@ -160,3 +168,9 @@ Definition obs_walk (r : res state) : list Z :=
   | ROk (s, ret) => 0 :: Z.of_nat (length ret) :: flat_map (fun ip => [fst ip; snd ip]) (sort_store s)
   end.
 Definition okind_of_z (z : Z) : okind := if Z.eqb z 0 then KShell else if Z.eqb z 1 then KSubmodel else KCD.
+
+(* one correspondence case: (format 0 = JSON / 1 = XML, failsafe, replace_existing, ignore_existing, document,
+   initial store, hash of the observation made on the SDK) *)
+Definition check_walk (c : Z * bool * bool * bool * doc * store * Z) : bool :=
+  let '(f, m, rp, ig, d, st, h) := c in
+  Z.eqb (hash_zl 0 (obs_walk (walk (if Z.eqb f 0 then JSON else XML) m {| fl_replace := rp; fl_ignore := ig |} d st))) h.
